@@ -29,12 +29,14 @@ package parquet
 
 //@ func (*writeCounter).Write
 //@   requires w != nil && isBB(w.w)
+//@   requires[C13] !sel(relArr, ref(asBB(w.w).B))
 //@   modifies w, asBB(w.w), HA(asBB(w.w).B)
 //@   ensures err == nil && res0 == #p && w.n == old(w.n) + #p && w.w == old(w.w) && sameOrFresh(asBB(w.w).B)
 //@   ensures[C09] err == nil ==> (wfault ==> old(wfault))
 
 //@ func writeLevels
 //@   requires 1 <= width && width <= 4 && isWC(w)
+//@   requires[C13] !sel(relArr, ref(asBB(asWC(w).w).B))
 //@   modifies asWC(w), asBB(asWC(w).w), HA(asBB(asWC(w).w).B)
 //@   ensures err == nil && asWC(w).w == old(asWC(w).w) && sameOrFresh(asBB(asWC(w).w).B)
 //@   ensures[C09] err == nil ==> (wfault ==> old(wfault))
